@@ -194,6 +194,10 @@ func (p *Pool[K, V]) Put(key K, val V) {
 		}
 	}
 
+	// evicting for capacity above may have emptied this key's list and dropped
+	// it from the map, so make sure the list we append to is the registered one.
+	p.entries[key] = local
+
 	ent := &entry[K, V]{key: key, val: val}
 	local.appendEntry(ent, (*entry[K, V]).localList)
 	p.order.appendEntry(ent, (*entry[K, V]).globalList)
